@@ -688,43 +688,65 @@ func (s *vKindSys) Key() string {
 // 32, 64 ...) that the small-scope BFS cannot reach. Enumerated over n, not sampled.
 func vKindSweep(c *vCtx, cfg vVecCfg, maxN int, hook func(s *vKindSys, h []string)) {
 	for n := 1; n <= maxN; n++ {
-		if c.Expired() {
-			c.Bound = fmt.Sprintf("sweep sizes 1..%d", n-1)
-			return
-		}
-		s := newKindSys(c, cfg, 3)
-		s.cfgS = cfg.String() + fmt.Sprintf(" sweep n=%d", n)
-		s.vals = vStructuredVecs(cfg.Dim, n)
-		s.hook = hook
-		s.noMulti = n > 12
-		s.Reset()
-		var hist []vOp
-		ap := func(op vOp, check bool) {
-			s.Apply(op, hist, check)
-			hist = append(hist, op)
-			c.Transitions++
-		}
-		for i := 0; i < n; i++ {
-			lvl := 0
-			if cfg.Kind == "hnsw" && i%5 == 4 {
-				lvl = 1
+		for pattern := 0; pattern < 3; pattern++ {
+			// removal patterns: 0 = every third removed, 1 = all but every fifth removed
+			// (mass delete), 2 = all but the last one removed
+			if pattern > 0 && (n < 4 || n%3 != 1) {
+				continue
 			}
-			ap(vOp{K: "Add", A: i + 1, B: i, C: lvl}, i == n-1)
+			if c.Expired() {
+				c.Bound = fmt.Sprintf("sweep sizes 1..%d", n-1)
+				return
+			}
+			s := newKindSys(c, cfg, 3)
+			s.cfgS = cfg.String() + fmt.Sprintf(" sweep n=%d", n)
+			if pattern > 0 {
+				s.cfgS += fmt.Sprintf(" pattern=%d", pattern)
+			}
+			s.vals = vStructuredVecs(cfg.Dim, n)
+			s.hook = hook
+			s.noMulti = n > 12
+			s.Reset()
+			var hist []vOp
+			ap := func(op vOp, check bool) {
+				s.Apply(op, hist, check)
+				hist = append(hist, op)
+				c.Transitions++
+			}
+			for i := 0; i < n; i++ {
+				lvl := 0
+				if cfg.Kind == "hnsw" && i%5 == 4 {
+					lvl = 1
+				}
+				ap(vOp{K: "Add", A: i + 1, B: i, C: lvl}, i == n-1)
+			}
+			switch pattern {
+			case 0:
+				for i := 2; i < n; i += 3 {
+					ap(vOp{K: "Remove", A: i + 1}, i+3 >= n)
+				}
+			case 1:
+				for i := 0; i < n; i++ {
+					if i%5 != 0 {
+						ap(vOp{K: "Remove", A: i + 1}, i == n-1)
+					}
+				}
+			case 2:
+				for i := 0; i < n-1; i++ {
+					ap(vOp{K: "Remove", A: i + 1}, i == n-2)
+				}
+			}
+			ap(vOp{K: "Flush"}, true)
+			if n < maxN {
+				// continue after the flush: one more add
+				s.vals = append(s.vals, []float32(vStructuredVecs(cfg.Dim, n+1)[n]))
+				ap(vOp{K: "Add", A: n + 1, B: n}, true)
+			}
+			c.Traces++
+			c.NewState(s.cfgS)
 		}
-		for i := 2; i < n; i += 3 {
-			last := i+3 >= n
-			ap(vOp{K: "Remove", A: i + 1}, last)
-		}
-		ap(vOp{K: "Flush"}, true)
-		if n < maxN {
-			// continue after the flush: one more add
-			s.vals = append(s.vals, []float32(vStructuredVecs(cfg.Dim, n+1)[n]))
-			ap(vOp{K: "Add", A: n + 1, B: n}, true)
-		}
-		c.Traces++
-		c.NewState(s.cfgS)
 	}
-	c.Sample(fmt.Sprintf("%s: n structured vectors, every third removed, flush, one more add; for every n in 1..%d", cfg.String(), maxN))
+	c.Sample(fmt.Sprintf("%s: n structured vectors, every third / all but every fifth / all but one removed, flush, one more add; for every n in 1..%d", cfg.String(), maxN))
 	c.Bound = fmt.Sprintf("sweep sizes 1..%d", maxN)
 }
 
